@@ -20,10 +20,12 @@ EXPLANATION = (
     "returns self on all normal exits, as sklearn's fit_transform needs); R-fit-transform (no class "
     "overrides fit_transform, the base derives from TransformerMixin); R-index-kept (frames/series "
     "built from plain lists and stored into X carry index=X.index); R-rowwise (no cross-row "
-    "aggregate has a data dependence into what transform stores or returns)."
+    "aggregate has a data dependence into what transform stores or returns; a test on any()/all() of "
+    "the rows may only guard assertions and writes restricted to exactly those rows; frame-wide "
+    "replacements are keyed by feature, one column each)."
 )
 NOT_DECIDED = "equality of frames on data; pandas' own copy-on-write semantics"
-FLOORS = {"R-transform-readonly": 24, "R-copy-true": 24, "R-fit-returns-self": 12, "R-index-kept": 1, "R-rowwise": 5, "R-fit-transform": 2}
+FLOORS = {"R-transform-readonly": 24, "R-copy-true": 24, "R-fit-returns-self": 12, "R-index-kept": 1, "R-rowwise": 12, "R-fit-transform": 2}
 
 CALLER_DATA = ("p:X", "p:y", "p:X_dev", "p:y_dev")
 
@@ -172,7 +174,110 @@ def rule_rowwise(ctx):
             ctx.ob("R-rowwise", construct(fi, f"{len(aggs)} aggregate call(s), none reaches a stored/returned value"), True, loc(fi))
 
 
+def rule_columns_scoped(ctx):
+    """Value replacements applied at transform are scoped to one fitted column each: a flat mapping
+    {value: label} given to DataFrame.replace rewrites every column of the frame (other features,
+    non-feature columns), so a row's label depends on which other values exist in the frame."""
+    R = "R-rowwise"
+    eng = ctx.effects
+    base = ctx.repo.find_class("BaseDiscretizer")
+    fi_t = ctx.repo.lookup_method(base, "transform")
+    n = 0
+    for fi in eng.reachable(fi_t, base, None):
+        for c in walk_no_nested(fi.node):
+            if not (isinstance(c, ast.Call) and isinstance(c.func, ast.Attribute) and c.func.attr == "replace" and c.args):
+                continue
+            recv = unparse(c.func.value)
+            if "[" in recv:  # a single column / series: scoped by construction
+                continue
+            if recv not in fi.params and recv not in ("x_copy", "X"):
+                continue
+            n += 1
+            a0 = c.args[0]
+            ok = False
+            if isinstance(a0, ast.DictComp) and len(c.args) == 1:
+                g = a0.generators[0]
+                key_is_feature = unparse(a0.key) in (unparse(g.target), unparse(g.target.elts[0]) if isinstance(g.target, ast.Tuple) else "")
+                over_features = "features" in unparse(g.iter) or "labels_per_values" in unparse(g.iter)
+                nested = isinstance(a0.value, (ast.DictComp, ast.Name, ast.Subscript))
+                ok = key_is_feature and over_features and nested
+            ctx.ob(R, construct(fi, f"{recv}.replace(...) maps values column by column ({{feature: {{value: label}}}})"), ok, loc(fi, c),
+                   "" if ok else "a mapping that is not keyed by feature applies to every column of the frame")
+    if n == 0:
+        ctx.ob(R, "no frame-wide replace in the transform path", True, "")
+
+
+def rule_aggregate_control(ctx):
+    """A test on an aggregate of the frame (any / all over rows) may only guard assertions and writes
+    restricted to the very rows the aggregate ranges over; anything else makes a row's label depend on
+    whether *other* rows have the tested quality."""
+    R = "R-rowwise"
+    eng = ctx.effects
+    base = ctx.repo.find_class("BaseDiscretizer")
+    fi_t = ctx.repo.lookup_method(base, "transform")
+    REDUCERS = {"any", "all"}
+    for fi in eng.reachable(fi_t, base, None):
+        if fi.cls is not None and fi.cls.name == "GroupedList":
+            continue
+        cfg = cfg_of(ctx, fi)
+        params = set(fi.params)
+        # row-derived names: parameters that are frames / columns, and whatever is computed from them
+        seeds = {p for p in params if p in ("X", "x_copy", "df_feature", "x")} | ({"x_copy"} if fi.name == "transform" else set())
+        rowish = tainted_names(fi.node, lambda n: False, seeds=seeds)
+
+        def reduced(e):
+            """(arg text) if e is any(<row-derived>) / <row-derived>.any() ..."""
+            if isinstance(e, ast.Call):
+                if isinstance(e.func, ast.Name) and e.func.id in REDUCERS and len(e.args) == 1 and expr_tainted(e.args[0], rowish, lambda n: False):
+                    if isinstance(e.args[0], (ast.GeneratorExp, ast.ListComp)):
+                        return None  # python-level scan of a small collection (uniques), not of rows
+                    return unparse(e.args[0])
+                if isinstance(e.func, ast.Attribute) and e.func.attr in REDUCERS and not e.args and expr_tainted(e.func.value, rowish, lambda n: False):
+                    return unparse(e.func.value)
+            return None
+
+        # names holding such an aggregate
+        agg_names = {}
+        for n in walk_no_nested(fi.node):
+            if isinstance(n, ast.Assign) and len(n.targets) == 1 and isinstance(n.targets[0], ast.Name):
+                for sub in ast.walk(n.value):
+                    r = reduced(sub)
+                    if r is not None:
+                        agg_names[n.targets[0].id] = r
+        bad = []
+        checked = 0
+        for st in walk_no_nested(fi.node):
+            if not isinstance(st, ast.Assign) or not any(isinstance(t, ast.Subscript) for t in st.targets):
+                continue
+            tgt = [t for t in st.targets if isinstance(t, ast.Subscript)][0]
+            root = tgt.value
+            while isinstance(root, (ast.Subscript, ast.Attribute)):
+                root = root.value
+            if not (isinstance(root, ast.Name) and (root.id in rowish)):
+                continue
+            for test, pol in cfg.path_conditions(st):
+                aggs = []
+                for sub in ast.walk(test):
+                    r = reduced(sub)
+                    if r is not None:
+                        aggs.append(r)
+                    if isinstance(sub, ast.Name) and sub.id in agg_names:
+                        aggs.append(agg_names[sub.id])
+                for a in aggs:
+                    checked += 1
+                    mask = unparse(tgt.slice)
+                    if mask != a:
+                        bad.append((st, a))
+        for st, a in bad[:3]:
+            ctx.ob(R, construct(fi, f"`{short(st, 60)}` is guarded by an aggregate over `{a}` but is not restricted to those rows"), False, loc(fi, st),
+                   "the label of a row changes with the presence of other rows: a subset of the frame is transformed differently")
+        if not bad:
+            ctx.ob(R, construct(fi, f"{checked} aggregate-guarded write(s), each restricted to the rows the aggregate ranges over"), True, loc(fi))
+
+
 def check(ctx):
+    rule_columns_scoped(ctx)
+    rule_aggregate_control(ctx)
     rule_transform_readonly(ctx)
     rule_copy_true(ctx)
     rule_fit_returns_self(ctx)
@@ -197,6 +302,8 @@ MUTANTS = [
     M("fit returns the result of super().fit only when verbose", [(F_TYPE, "        super().fit(X, y)\n\n        return self", "        super().fit(X, y)\n        if self.verbose:\n            return self")], "R-fit-returns-self", "StringDiscretizer"),
     M("quantitative labels by rank of the value in the frame", [(F_BASE, "    # list of masks of values to replace with there respective group\n    values_to_group = [df_feature <= value for value in feature_values if value != str_nan]",
        "    # list of masks of values to replace with there respective group\n    ranks = df_feature.rank(pct=True)\n    values_to_group = [ranks <= 0.5 for value in feature_values if value != str_nan]")], "R-rowwise"),
+    M("NaN reinstated only when the frame holds a missing value", [(F_BASE, "                if self.str_nan in label_per_value:\n                    x_copy[feature] = x_copy[feature].replace(label_per_value[self.str_nan], nan)", "                if self.str_nan in label_per_value and x_copy[feature].isna().any():\n                    x_copy[feature] = x_copy[feature].replace(label_per_value[self.str_nan], nan)")], "R-rowwise", "aggregate"),
+    M("default replacement applied frame-wide", [(F_BASE, "        X.replace(\n            {\n                feature: {\n                    val: self.str_default\n                    for val in uniques[feature]\n                    if val not in self.values_orders[feature].values()\n                    and val != self.str_nan\n                    and self.str_default in self.values_orders[feature].values()\n                }\n                for feature in features\n            },\n            inplace=True,\n        )", "        X.replace(\n            {\n                val: self.str_default\n                for feature in features\n                for val in uniques[feature]\n                if val not in self.values_orders[feature].values()\n                and val != self.str_nan\n                and self.str_default in self.values_orders[feature].values()\n            },\n            inplace=True,\n        )")], "R-rowwise", "column by column"),
     M("nan filled with the column's mode", [(F_BASE, "        if nan_value != str_nan:\n            df_feature[nans] = nan_value", "        if nan_value != str_nan:\n            df_feature[nans] = df_feature.mode()[0]")], "R-rowwise"),
     M("y mutated in ChainedDiscretizer-style fillna inplace", [(F_QUAL, "        # checking for binary target\n        x_copy = super()._prepare_data(X, y)\n\n        # checks and initilizes", "        # checking for binary target\n        x_copy = super()._prepare_data(X, y)\n        y.fillna(0, inplace=True)\n\n        # checks and initilizes")], "R-copy-true", "CategoricalDiscretizer.fit"),
 ]
